@@ -4,7 +4,7 @@
 // the projection relation, key-order invariance and that the input was not mutated (snapshot +
 // a second run on the deeply frozen input).
 import * as A from "../gen/ast.mjs";
-import { corpus, valuesFor, typeKey, kindsHistogram, h8 } from "../lib/corpus.mjs";
+import { programItems, corpus, valuesFor, typeKey, kindsHistogram, h8 } from "../lib/corpus.mjs";
 import { coreProgramText, shallow } from "../lib/localise.mjs";
 import { toEjson, fromEjson, valueClass, show } from "../lib/ejson.mjs";
 import { snapshot, snapshotDiff, deepFreeze, deepEqual, projectionFault, isCyclic } from "../lib/deep.mjs";
@@ -13,6 +13,7 @@ import { renderType } from "../gen/ast.mjs";
 import { Ref } from "../ref/member.mjs";
 import { compileText, compileProgram } from "../lib/util.mjs";
 import { Rng } from "../lib/rng.mjs";
+import { coreKinds } from "../gen/typegen.mjs";
 import { localiseClause } from "../lib/relloc.mjs";
 
 export const FEATURES = {};
@@ -58,12 +59,18 @@ function droppedProtoName(data, input, depth = 0) {
 }
 
 // somewhere the input has a Date / Map / typed array / class instance where the data has a rebuilt plain object
-function exoticRebuilt(data, input, depth = 0) {
+// (`declared`: constructor kinds the type itself declares - a Set that comes back as {} under a
+// declared Set<..> is not this finding)
+function exoticRebuilt(data, input, declared, depth = 0) {
   if (depth > 50 || data === input || data === null || input === null || typeof data !== "object" || typeof input !== "object") return false;
-  if (Array.isArray(input)) return Array.isArray(data) && data.some((x, i) => exoticRebuilt(x, input[i], depth + 1));
-  if (![Object.prototype, null].includes(Object.getPrototypeOf(input))) return Object.getPrototypeOf(data) === Object.prototype;
+  if (Array.isArray(input)) return Array.isArray(data) && data.some((x, i) => exoticRebuilt(x, input[i], declared, depth + 1));
+  if (![Object.prototype, null].includes(Object.getPrototypeOf(input))) {
+    const kind = input instanceof Map ? "map" : input instanceof Set ? "set" : input instanceof Date ? "date" : ArrayBuffer.isView(input) ? "typed" : "other";
+    if (declared && declared.has(kind)) return false;
+    return Object.getPrototypeOf(data) === Object.prototype;
+  }
   if (Array.isArray(data)) return false;
-  return Object.keys(data).some((k) => Object.prototype.hasOwnProperty.call(input, k) && exoticRebuilt(data[k], input[k], depth + 1));
+  return Object.keys(data).some((k) => Object.prototype.hasOwnProperty.call(input, k) && exoticRebuilt(data[k], input[k], declared, depth + 1));
 }
 function nullProtoCopy(v, depth = 0) {
   if (v === null || typeof v !== "object" || depth > 200) return v;
@@ -98,7 +105,8 @@ export function checkTriple(parser, name, v, o, core, ref) {
     return null;
   }
   const data = sp.v.data;
-  const tag = droppedProtoName(data, v) ? ":protoname-key-dropped" : exoticRebuilt(data, v) ? ":exotic-object-under-object-type" : "";
+  const declared = core && ref ? coreKinds(ref.env, core) : null;
+  const tag = droppedProtoName(data, v) ? ":protoname-key-dropped" : exoticRebuilt(data, v, declared) ? ":exotic-object-under-object-type" : "";
   if (!deepEqual(data, pr.v, true)) return { clause: "safeParse-vs-parse-data" + tag, detail: `${show(data)} vs ${show(pr.v)}` };
   const v2 = call(() => parser.validate(data, o));
   if ((!v2.ok || v2.v !== true) && call(() => parser.validate(nullProtoCopy(data), o)).v === true)
@@ -209,7 +217,7 @@ export async function run(ctx) {
   const locCache = new Map();
   const nProgs = ctx.share(800, 24000);
   const seenTriples = new Map();
-  for await (const item of corpus(ctx, { label: "C03", count: nProgs, features: FEATURES })) {
+  const judgeItem = async (item) => {
     const { prog, parsers, ref } = item;
     for (const ps of prog.parsers) {
       const core = prog.cores.get(ps.name);
@@ -249,6 +257,49 @@ export async function run(ctx) {
         ctx.judged();
         if (fz) await reportClause(ctx, item, ps.name, core, v, OPTION_SETS[oi % 4], fz, locCache);
       }
+    }
+  };
+  for await (const item of corpus(ctx, { label: "C03", count: nProgs, features: FEATURES })) await judgeItem(item);
+  // grid: every kind of leaf as a property that two members of an intersection / a union both declare
+  // (the projections of the members have to be merged without losing the leaf's kind or content)
+  {
+    const leaves = [
+      ["set", { k: "set", el: A.kw("string") }],
+      ["map", { k: "map", key: A.kw("string"), val: A.kw("number") }],
+      ["date", { k: "builtin", name: "Date" }],
+      ["typed", { k: "builtin", name: "Uint8Array" }],
+      ["bigint", A.kw("bigint")],
+      ["array", A.arr(A.kw("string"))],
+      ["tuple", A.tuple([A.kw("number"), A.kw("string")])],
+      ["object", A.obj([A.prop("in", A.kw("number")), A.prop("o", A.kw("string"), true)])],
+      ["nested-set", A.obj([A.prop("s", { k: "set", el: A.kw("number") })])],
+      ["array-of-map", A.arr({ k: "map", key: A.kw("string"), val: A.kw("boolean") })],
+      ["null", A.kw("null")],
+      ["union", A.union([A.kw("string"), A.arr(A.kw("number"))])],
+    ];
+    const programs = [];
+    let k = 0;
+    for (const [ln, L] of leaves) {
+      k++;
+      if (k % ctx.of !== ctx.shard % leaves.length && ctx.of >= leaves.length) continue;
+      const decls = [
+        { d: "alias", name: "Base", params: [], t: A.obj([A.prop("p", L), A.prop("id", A.kw("string"))]) },
+        { d: "alias", name: "Other", params: [], t: A.obj([A.prop("p", L), A.prop("o", A.kw("null"), true)]) },
+      ];
+      const parsersT = [
+        ["NamedInline", A.inter([A.ref("Base"), A.obj([A.prop("p", L), A.prop("extra", A.kw("number"))])])],
+        ["InlineInline", A.inter([A.obj([A.prop("p", L), A.prop("a", A.lit(1))]), A.obj([A.prop("p", L), A.prop("b", A.lit(2))])])],
+        ["NamedNamed", A.inter([A.ref("Base"), A.ref("Other")])],
+        ["Three", A.inter([A.ref("Base"), A.ref("Other"), A.obj([A.prop("p", L)])])],
+        ["TaggedUnion", A.union([A.obj([A.prop("k", A.lit("a")), A.prop("p", L)]), A.obj([A.prop("k", A.lit("b")), A.prop("p", L), A.prop("q", A.lit(1))])])],
+        ["OverlapUnion", A.union([A.ref("Base"), A.obj([A.prop("p", L), A.prop("id", A.kw("string")), A.prop("z", A.lit(1), true)])])],
+        ["Nested", A.obj([A.prop("n", A.inter([A.ref("Base"), A.obj([A.prop("p", L)])])), A.prop("list", A.arr(A.inter([A.ref("Other"), A.obj([A.prop("p", L)])])))])],
+      ];
+      programs.push({ decls, parsers: parsersT.map(([name, t]) => ({ name: `${name}_${ln.replace(/-/g, "_")}`, t })) });
+    }
+    for await (const item of programItems(ctx, programs, "C03-grid")) {
+      ctx.count("grid_programs");
+      await judgeItem(item);
     }
   }
   // ad-hoc validators (b.*, buntyped.Union)
